@@ -1,5 +1,6 @@
 //! runtime_probe: the run-time crate `leptos_i18n` (ssr + all formatters) under native workloads.
 #![allow(clippy::all)]
+mod ctx;
 mod negotiate;
 
 use serde_json::Value;
@@ -8,6 +9,7 @@ fn main() {
     let args: Vec<String> = std::env::args().collect();
     match args.get(1).map(String::as_str) {
         Some("negotiate") => negotiate::serve(),
+        Some("ctx") => ctx::serve(),
         Some("negotiate-sweep") => {
             let p: Value = serde_json::from_str(args.get(2).map(String::as_str).unwrap_or("{}")).unwrap();
             negotiate::sweep(&p)
